@@ -6,7 +6,9 @@ against the Qt API model (E3):
       well-typed operand-kind tuple with every placement of {dynamic read, literal} per operand
       (folded and run-time paths and their mixtures), depth 1 complete and depth 2 over
       representative sub-expressions per type (incl. a fully constant one);
-  L2  control-flow skeletons: every statement tree with <= k nodes (lib/progs.py) in value context.
+  L2  control-flow skeletons: every statement tree with <= k nodes (lib/progs.py) in value context;
+  L3  switch family: every switch with <= 3 clauses x default position x clause-body menu, and
+      switches nested in clause bodies (fall-through, break, conditional break, early return).
 States: the full product of small domains of exactly the properties a document reads; states in
 which the reference semantics is undefined are excluded, never judged.
 """
@@ -61,6 +63,29 @@ def l1_groups(tier):
         for l in (L("n", 1), L("n", 3), L("n", 1 << 20)):
             es.append(("bin", op, l, B0("i")))
         yield (f"I{op}", es)
+    # constant sub-expressions folded at translation time inside a run-time expression
+    fold_lits = [L("n", 7), L("n", -7), L("n", 3), L("n", -3), L("n", 1), L("n", 0), L("n", 2)]
+    for op in ["+", "-", "*", "/", "%", "&", "^", "|", "<<", ">>", "<", "<=", "==", "!="]:
+        es = []
+        for x, y in itertools.product(fold_lits, repeat=2):
+            if op in ("/", "%") and y[2] == 0:
+                continue
+            if op in ("<<", ">>") and (y[2] < 0 or x[2] < 0):
+                continue
+            folded = ("bin", op, x, y)
+            if op in ("<", "<=", "==", "!="):
+                es.append(("tern", folded, A("i"), B0("i")))
+            else:
+                es.append(("bin", "+", A("i"), folded))
+        yield (f"Ifold{op}", es)
+    yield ("Dfold", [("bin", "+", A("d"), ("bin", op, L("D", x), L("D", y))) for op in ("+", "-", "*", "/")
+                     for x, y in ((0.5, 2.0), (-1.5, 0.5), (2.0, -1.5))])
+    yield ("Sfold", [("bin", "+", A("s"), ("bin", "+", L("s", x), L("s", y))) for x, y in (("a", "b"), ("", "c"), ("%1", ""))] +
+           [("tern", ("bin", op, L("s", "a"), L("s", "b")), A("s"), B0("s")) for op in ("<", "==", ">=")])
+    yield ("Bfold", [("tern", ("bin", op, L("B", x), L("B", y)), A("i"), B0("i")) for op in ("&&", "||", "==", "!=")
+                     for x, y in itertools.product((True, False), repeat=2)] +
+           [("tern", ("un", "!", L("B", True)), A("i"), B0("i")), ("bin", "+", A("i"), ("un", "-", L("n", 5))),
+            ("bin", "+", A("i"), ("un", "~", L("n", 5))), ("bin", "+", A("i"), ("un", "-", ("un", "-", L("n", 5))))])
     yield ("Iun", [("un", "+", A("i")), ("un", "-", A("i")), ("un", "~", A("i")), ("un", "-", ("un", "-", A("i"))),
                    ("un", "~", ("un", "-", A("i")))])
     yield ("Imath", [("call", f, [x, y]) for f in ("Math.max", "Math.min")
@@ -500,13 +525,65 @@ def shard_l2(shard, nshards, payload):
     return t
 
 
+def l3_skeletons(tier):
+    """Switch family: every switch with <= 3 clauses, the default clause in every position (or
+    absent), every clause body from a menu (empty / effect / effect+break / break / return /
+    conditional break + effect), alone and followed by a statement; plus switches nested in a
+    clause body of another switch (inner break must leave the inner switch only)."""
+    bodies = [[], [("A",)], [("A",), ("B",)], [("B",)], [("R",)], [("I", "c", [("B",)]), ("A",)]]
+    for n in (1, 2, 3):
+        for combo in itertools.product(bodies, repeat=n):
+            for dpos in [None] + list(range(n)):
+                sw = ("SW", [("d" if i == dpos else "c", list(b)) for i, b in enumerate(combo)])
+                yield [sw]
+                if n <= 2:
+                    yield [sw, ("A",)]
+    inner_shapes = [
+        ("SW", [("c", [("A",), ("B",)]), ("d", [("A",)])]),
+        ("SW", [("c", [("B",)]), ("c", [("A",)])]),
+        ("SW", [("d", [("A",), ("B",)]), ("c", [("A",)])]),
+        ("SW", [("c", [("I", "c", [("B",)]), ("A",)])]),
+        ("SW", [("c", [("R",)]), ("d", [("B",)])]),
+    ]
+    for inner in inner_shapes:
+        for tail in ([], [("A",)], [("A",), ("B",)], [("B",)]):
+            for after in ([], [("A",)]):
+                for second in ([("A",)], [("B",)], []):
+                    for dpos in (None, 0, 1):
+                        clauses = [["c", [inner] + tail], ["c", list(second)]]
+                        if dpos is not None:
+                            clauses[dpos][0] = "d"
+                        yield [("SW", [tuple(c) for c in clauses])] + after
+
+
+def shard_l3(shard, nshards, payload):
+    vd = vc.worker_vdrive()
+    t = vc.Tally()
+    pl = []
+    for k, sk in enumerate(l3_skeletons(payload["tier"])):
+        if k % nshards != shard:
+            continue
+        x = prepare_l2(vd, 100000 + k, sk, "ret", t)
+        if x is None:
+            continue
+        if x[0] == "dyn":
+            pl.append(x[1])
+    for i in range(0, len(pl), 40):
+        batch = pl[i:i + 40]
+        res = harness.run_batch(batch, tag=f"c01l3-{shard}")
+        for p in batch:
+            judge_l2(t, p, res[p.pid])
+    return t
+
+
 def main(tier, t0):
     vc.ensure_vdrive()
     import qtmock
     qtmock.load_types()
     t1 = vc.merge_tallies(vc.run_sharded(shard_l1, {"tier": tier}))
     t2 = vc.merge_tallies(vc.run_sharded(shard_l2, {"tier": tier}))
-    tally = vc.Tally().merge(t1).merge(t2)
+    t3 = vc.merge_tallies(vc.run_sharded(shard_l3, {"tier": tier}))
+    tally = vc.Tally().merge(t1).merge(t2).merge(t3)
     c = tally.counts
     cov = {
         "evaluations": c.get("evaluations", 0),
